@@ -25,7 +25,8 @@ def gen_tree(rng, depth, names, url_names=False, p_readme=0.4, servings_pool=(No
     d = dict(name=rng.choice(pool) + str(counter[0]), readme=None, recipes=[], subdirs=[], assets=[])
     if rng.random() < p_readme:
         d["readme"] = dict(file=rng.choice(["README.md", "index.md", "readme.md", "INDEX.md"]),
-                           title=rng.choice(["Cat", "Ünï", "A & B", "Zed", "cat"]) + " " + str(rng.randint(0, 9)), links=[])
+                           title=rng.choice(["Cat", "Ünï", "A & B", "Zed", "cat", "Lunch", "hot dish", "Meal plan week", "1 pot"]) + rng.choice([" " + str(rng.randint(0, 9)), " " + str(rng.randint(0, 9)), ""]),
+                           links=[])
     for i in range(rng.randint(0, 3)):
         counter[0] += 1
         d["recipes"].append(dict(file=rng.choice(pool) + str(counter[0]) + rng.choice([".md", ".md", ".MD"]),
@@ -47,17 +48,37 @@ def gen_tree(rng, depth, names, url_names=False, p_readme=0.4, servings_pool=(No
     return d
 
 
+def link_md(lab, url):
+    """one authored link. The first letter of the label says how it is written: L Markdown link, I Markdown image,
+    H raw HTML anchor and J raw HTML image with upper-case tag and attribute names"""
+    if lab.startswith("I"):
+        return "![%s](%s)" % (lab, url)
+    if lab.startswith("H"):
+        return '<A HREF="%s">%s</A>' % (url.replace("&", "&amp;").replace('"', "&quot;"), lab)
+    if lab.startswith("J"):
+        return '<IMG SRC="%s" ALT="%s">' % (url.replace("&", "&amp;").replace('"', "&quot;"), lab)
+    return "[%s](%s)" % (lab, url)
+
+
+AUTHORED = ("L", "I", "H", "J")
+
+
+SERVING_PHRASES = ["for", "for", "Serves", "FOR", "To Make", "serves", "to serve", "Makes", "TO SERVE"]
+
+
 def recipe_text(r):
-    t = r["title"] + (" for %d" % r["servings"] if r["servings"] else "")
+    # the serving phrase in one of its documented forms and letter cases (chosen by the recipe's own data: stable across rewrites)
+    phrase = SERVING_PHRASES[(len(r["title"]) + len(r["file"]) + (r["servings"] or 0)) % len(SERVING_PHRASES)]
+    t = r["title"] + (" %s %d" % (phrase, r["servings"]) if r["servings"] else "")
     body = "# %s\n\nMix {2} things.\n\n    1 x\n    200 g y, chopped\n\n" % t
-    body += "\n\n".join("[%s](%s)" % (lab, url) if not lab.startswith("I") else "![%s](%s)" % (lab, url) for lab, url, _ in r["links"])
+    body += "\n\n".join(link_md(lab, url) for lab, url, _ in r["links"])
     return body + "\n"
 
 
 def write_tree(d, path):
     path.mkdir(parents=True, exist_ok=True)
     if d["readme"] is not None:
-        links = "\n\n".join(("![%s](%s)" if lab.startswith("I") else "[%s](%s)") % (lab, url) for lab, url, _ in d["readme"]["links"])
+        links = "\n\n".join(link_md(lab, url) for lab, url, _ in d["readme"]["links"])
         (path / d["readme"]["file"]).write_text("# %s\n\nhello\n\n%s\n" % (d["readme"]["title"], links))
     for r in d["recipes"]:
         (path / r["file"]).write_text(r["raw"] if r.get("raw") is not None else recipe_text(r))
